@@ -56,7 +56,8 @@ def run(ctx) -> None:
             ok = c is not None and rx.excludes(c, ", ")
             ctx.check(ok, "C10.F.mnemonic-alphabet", "mnemonic group of a line regex", f"{sh.group(k)!r}"[:120],
                       "the mnemonic field excludes ',' (objdump prints branch hints as 'jo,pn') and blank")
-    from ._parser import operands_from_operand_group, site_field_kinds
+    from ._parser import operands_from_operand_group, parser_never_swallows, site_field_kinds
+    parser_never_swallows(ctx, "C10.F.no-half-parsed-records")
     site_field_kinds(ctx, "C10.F.field-kinds", I, sites)
     operands_from_operand_group(ctx, "C10.F.operands-only-from-operand-group", I, sites)
     for a, row, outs, raises in decision_table(I):
